@@ -1,0 +1,47 @@
+//go:build verif
+
+package signaling_rpc_client
+
+import (
+	"context"
+
+	signaling_rpc "github.com/aperturerobotics/bifrost/signaling/rpc"
+)
+
+// VerifTrackerState is a snapshot of the unexported clientPeerTracker fields
+// guarded by bcast. Only built with the verif tag; read-only.
+type VerifTrackerState struct {
+	Open          *uint64
+	Out           *signaling_rpc.SessionMsg
+	OutSent       bool
+	OutAcked      bool
+	OutCancel     bool
+	Recv          *signaling_rpc.SessionMsg
+	RecvProcessed bool
+}
+
+// VerifState returns a snapshot of the tracker behind the reference.
+func (r *ClientPeerRef) VerifState() VerifTrackerState {
+	var st VerifTrackerState
+	tkr := r.tkr
+	tkr.bcast.HoldLock(func(broadcast func(), getWaitCh func() <-chan struct{}) {
+		if tkr.open != nil {
+			v := *tkr.open
+			st.Open = &v
+		}
+		st.Out = tkr.out
+		st.OutSent = tkr.outSent
+		st.OutAcked = tkr.outAcked
+		st.OutCancel = tkr.outCancel
+		st.Recv = tkr.recv
+		st.RecvProcessed = tkr.recvProcessed
+	})
+	return st
+}
+
+// VerifExecute runs one instance of the unexported clientPeerTracker.execute
+// for the tracker behind the reference and returns its error. Used when the
+// Client's context was never set, so that the keyed routine is not running.
+func (r *ClientPeerRef) VerifExecute(ctx context.Context) error {
+	return r.tkr.execute(ctx)
+}
